@@ -117,15 +117,13 @@ def renderDatetime (key : Str) (t : Cal.DT) : R Str :=
   | some f => .ok (Cal.strftime f t)
   | none => .error .pyKey
 
-/-- `format` of the asset engine -/
+/-- `format` of the asset engine: the same single left-to-right pass as the classic engine -/
 def formatWith {V} (rows : List ARow) (render : Str → V → R Str) (v : V) (fmt : Str) : R Str := do
-  let f0 := replaceAll fmt ['%', '%'] Gen.format_escape
-  let toks ← tokens Gen.format_token_re f0
-  let out ← toks.foldlM (fun (acc : Str) (tok : Str) =>
-      if rows.any fun r => r.1 == tok then do
-        let text ← render tok v
-        pure (replaceAll acc tok text)
-      else .error .fmtKey) f0
-  pure (replaceAll out Gen.format_escape ['%'])
+  let r ← reOrErr Gen.asset_format_token_re
+  let (out, _) ← subFold r fmt (fun (_ : Unit) (tok : Str) =>
+      if tok == ['%', '%'] then pure (Gen.format_percent, ())
+      else if rows.any fun r => r.1 == tok then (render tok v).map fun text => (text, ())
+      else .error .fmtKey) ()
+  pure out
 
 end Assets
